@@ -299,6 +299,10 @@ def run(ctx):
         "completed raw writes persist (no power-loss / block reordering)",
         "primitives are atomic: stat, mkdir, open(O_CREAT|O_TRUNC), each raw "
         "write, truncate, rename/replace, unlink; POSIX inode semantics",
+        "time.sleep() is a scheduling point and takes at least 1 s of the "
+        "sleeping process's virtual clock (time.time / time.monotonic read "
+        "that clock): polling loops with a timeout end after a few "
+        "iterations - one admissible timing among many",
         "a state is (file system content, per-process observation history, "
         "pending primitive); a process's future depends on nothing else",
     ]
